@@ -1,11 +1,11 @@
 SPECIFICATION Spec
 CONSTANTS
-  Geoms <- GeomsSwap
-  MaxDepth = 1
+  Geoms <- GeomsThorough
+  MaxDepth = 2
   WideDepth = 1
-  WideGids <- Gids13
-  NarrowOps <- OpsN
-  NarrowArity = 2
+  WideGids <- Gids123
+  NarrowOps <- OpsNH
+  NarrowArity = 3
   MaxArity = 3
   Lanes = TRUE
   Record = FALSE
